@@ -1675,7 +1675,7 @@ CaseX86M_GPB_MulDiv:
           opcode.add_arith_by_size(o0.x86_rm_size());
 
           // Handle a special form of `mov al|ax|eax|rax, [ptr64]` that doesn't use MOD.
-          if (op_reg == Gp::kIdAx && !rm_rel->as<Mem>().has_base_or_index()) {
+          if (op_reg == Gp::kIdAx && !o0.as<Gp>().is_gp8_hi() && !rm_rel->as<Mem>().has_base_or_index()) {
             if (x86_should_use_movabs(this, writer, o0.x86_rm_size(), options, rm_rel->as<Mem>())) {
               opcode += 0xA0u;
               imm_value = rm_rel->as<Mem>().offset();
@@ -1708,7 +1708,7 @@ CaseX86M_GPB_MulDiv:
           opcode.add_arith_by_size(o1.x86_rm_size());
 
           // Handle a special form of `mov [ptr64], al|ax|eax|rax` that doesn't use MOD.
-          if (op_reg == Gp::kIdAx && !rm_rel->as<Mem>().has_base_or_index()) {
+          if (op_reg == Gp::kIdAx && !o1.as<Gp>().is_gp8_hi() && !rm_rel->as<Mem>().has_base_or_index()) {
             if (x86_should_use_movabs(this, writer, o1.x86_rm_size(), options, rm_rel->as<Mem>())) {
               opcode += 0xA2u;
               imm_value = rm_rel->as<Mem>().offset();
